@@ -34,7 +34,7 @@ import lib
 import universe
 from lib import coq_bool, coq_list, coq_nat
 
-COQ_TARGETS = ["theories/Proofs/CoreC06.vo", "theories/Model/CoreC06Eq.vo"]
+COQ_TARGETS = ["theories/Proofs/CoreC06.vo", "theories/Model/CoreC06Eq.vo", "theories/Props/C06.vo"]
 THEOREMS = ["C06_wire", "C06_wire_any_input", "C06_fresh", "C06_fresh_shape", "C06_deterministic",
             "C06_literal_rejects", "C06_current_is_marG", "C06_wire_current", "C06_refuted_none_first",
             "C06_refuted_none_first_shares", "C06_refuted_literal_eq"]
@@ -185,7 +185,14 @@ def measure_none_member():
 
 
 def prove(run: lib.Run):
-    run.check_props("Props/C06.v", THEOREMS)
+    ok = run.check_props("Props/C06.v", THEOREMS)
+    if ok and run.tier == "thorough":
+        rc, out, err = lib.sh(["coqchk", "-o", "-silent", "-Q", lib.THEORIES, "TL", "TL.Props.C06"], timeout=900, cwd=lib.COQ)
+        txt = out + err
+        clean = rc == 0 and "Axioms: <none>" in txt and "type-in-type: <none>" in txt and \
+            "unsafe (co)fixpoints: <none>" in txt and "positivity is assumed: <none>" in txt
+        run.oblige("coqchk:-o TL.Props.C06 (no axioms, nothing assumed)", clean, txt[-400:] if not clean else "")
+        run.checker_cmds.append("coqchk -o -Q coq/theories TL TL.Props.C06")
     mode = measure_none_member()
     _STATE["none_mode"] = mode
     run.extra_cov["none_member_routine"] = mode
